@@ -7,7 +7,7 @@ use std::collections::BTreeMap;
 
 pub fn monitor() -> Monitor {
   Monitor { id: "C15",
-    rule: "fixed-depth builder: depth 0..6 and 29, flag, buffer capacity 1..40 (and 10^4), push sequences: random, increasing runs, decreasing runs, few distinct values (massive duplicates), clustered runs starting on / off 4^k-aligned cells with repeated pushes, empty; plus histories in which ONE builder serves 3 successive builds (to_bmoc leaves an empty builder; the next build often starts with the last value of the previous one): build k must cover exactly what was pushed since build k-1; oracle = sorted-dedup of the pushes. pack: random valid trees (depth_max 1..5, 1-3 base cells, flags mixed or all full) pushed through to_bmoc_packing; lower depth: the same trees through to_lower_depth_bmoc(_packing) for every new depth < depth_max. Non-trivial = sequence with at least one duplicate or out-of-order push and more pushes than the capacity (forces intermediate merges), or tree containing 4 full siblings (pack must act) / cells deeper than the new depth.",
+    rule: "fixed-depth builder: depth 0..6 and 29, flag, buffer capacity 1..40 (and 10^4), push sequences: random, increasing runs, decreasing runs, few distinct values (massive duplicates), clustered runs starting on / off 4^k-aligned cells with repeated pushes, empty; plus long aligned runs (4^k - 2 .. 4^k + 1 consecutive cells from a multiple of 4^k, k up to 11 / 12, i.e. up to 1.7e7 pushes, judged on intervals); plus histories in which ONE builder serves 3 successive builds (to_bmoc leaves an empty builder; the next build often starts with the last value of the previous one): build k must cover exactly what was pushed since build k-1; oracle = sorted-dedup of the pushes. pack: random valid trees (depth_max 1..5, 1-3 base cells, flags mixed or all full) pushed through to_bmoc_packing; lower depth: the same trees through to_lower_depth_bmoc(_packing) for every new depth < depth_max. Non-trivial = sequence with at least one duplicate or out-of-order push and more pushes than the capacity (forces intermediate merges), or tree containing 4 full siblings (pack must act) / cells deeper than the new depth.",
     assumptions: &["model = set of pushed numbers / map deepest cell -> state (bm.rs)"],
     run, replay }
 }
@@ -20,11 +20,44 @@ fn run(ctx: &mut Ctx, _extra: &mut BTreeMap<String, String>) {
   run_sharded(ctx, 16, |c, k| {
     let mut rng = Rng::new(seed, 1500 + k as u64);
     for _ in 0..n_seq / 16 { let case = gen_seq(&mut rng); judge_seq(c, &case); }
+    // long aligned runs: 4^k - 2 .. 4^k + 1 consecutive cells starting on a multiple of 4^k (the builder turns run lengths into delta depths),
+    // k up to 11 (4.2 million pushes; 12 in the thorough release pass), default and explicit capacities; judged on intervals
+    { let kmax: u32 = if small { 8 } else if c.thorough { 12 } else { 11 };
+      for kk in 1..=kmax { if kk as usize % 16 != k { continue; } for &dl in [-2i64, -1, 0, 1].iter() {
+        let depth = (kk as u8).max(if rng.coin() { 29 } else { kk as u8 + rng.below(3) as u8 }).min(29);
+        let nalign = (12u64 << (2 * depth)) >> (2 * kk); let start = rng.below(nalign) << (2 * kk);
+        let len = ((1i64 << (2 * kk)) + dl) as u64;
+        let cap = if kk >= 12 { 20_000_000 } else if rng.coin() { 0 } else { (len as usize + 10).max(16) };
+        judge_run(c, depth, rng.coin(), cap, start, len);
+      } } }
     // the same builder used for several successive builds (to_bmoc hands the result over and leaves an empty builder)
     for _ in 0..n_seq / 64 { let case = gen_sessions(&mut rng); judge_sessions(c, &case); }
     for _ in 0..n_tree / 16 { let case = gen_tree_case(&mut rng); judge_tree(c, &case); }
     if k == 0 { judge_seq(c, &Case::new("seq").u("depth", 3).b("flag", true).u("cap", 5).ul("seq", &[])); }
   });
+}
+
+/// one long ascending run [start, start+len) followed by two isolated cells; oracle on intervals (no flattening)
+pub fn judge_run(ctx: &mut Ctx, depth: u8, flag: bool, cap: usize, start: u64, len: u64) {
+  let c = Case::new("run").u("depth", depth as u64).b("flag", flag).u("cap", cap as u64).u("start", start).u("len", len);
+  ctx.eval();
+  let nh = 12u64 << (2 * depth);
+  let tail: Vec<u64> = [start + len + 2, start + len + 5].iter().cloned().filter(|&x| x < nh).collect();
+  let r = catch(|| { let mut b = if cap == 0 { BMOCBuilderFixedDepth::new(depth, flag) } else { BMOCBuilderFixedDepth::with_capacity(depth, flag, cap) };
+    for h in start..start + len { b.push(h); } for &h in tail.iter() { b.push(h); } b.to_bmoc() });
+  ctx.hard("run:long-aligned-run", &[depth as u64, cap as u64, start, len]);
+  match r {
+    Err(p) => ctx.violation("fixed-depth-builder-panics", c, p),
+    Ok(None) => ctx.violation("builder-returns-nothing-although-cells-were-pushed", c, format!("{} cells pushed", len)),
+    Ok(Some(bm)) => {
+      let cells = match walk_opt(&bm, 1 << 12, false) { Ok(_) => cells_of(&bm), Err(e) => { ctx.violation("builder-result-not-well-formed", c, e); return; } };
+      if cells.iter().any(|x| x.2 != flag) { ctx.violation("builder-result-cell-with-wrong-flag", c.clone(), fmt_cells(&cells[..cells.len().min(8)])); }
+      let st = if flag { 2 } else { 1 };
+      let mut want: Vec<Iv> = vec![(start, start + len, st)]; for &h in tail.iter() { want.push((h, h + 1, st)); }
+      let got = to_intervals(depth, &cells);
+      if got != want { ctx.violation("builder-result-differs-from-the-pushed-set", c, format!("pushed {:?}, result covers {:?} ({} entries)", want, &got[..got.len().min(6)], cells.len())); }
+    }
+  }
 }
 
 fn gen_sessions(rng: &mut Rng) -> Case {
@@ -170,5 +203,5 @@ pub fn judge_tree(ctx: &mut Ctx, c: &Case) {
 }
 
 fn replay(ctx: &mut Ctx, c: &Case) {
-  match c.mon() { "seq" => judge_seq(ctx, c), "tree" => judge_tree(ctx, c), "sessions" => judge_sessions(ctx, c), m => ctx.inconclusive(&format!("unknown replay monitor {}", m)) }
+  match c.mon() { "seq" => judge_seq(ctx, c), "tree" => judge_tree(ctx, c), "sessions" => judge_sessions(ctx, c), "run" => judge_run(ctx, c.gu("depth") as u8, c.gb("flag"), c.gu("cap") as usize, c.gu("start"), c.gu("len")), m => ctx.inconclusive(&format!("unknown replay monitor {}", m)) }
 }
